@@ -10,12 +10,17 @@ user lambda, so every receiver of a *leg* executes the user lambda exactly once:
   entry of `layout().local_ranks()` — itself included (a real MPI self-send);
 * stage 2 (`forward_remote_and_dispatch_lambda`, run by every stage-1 receiver `r`):
     num_layers          = node_size / local_size + (node_size % local_size > 0)
-    num_ranks_per_layer = local_size * local_size
     node_partner_offset = (local_id - node_id) % local_size   (C remainder; `+= local_size` if negative)
-    if (node_partner_offset < node_size) {
-      curr = strided_ranks()[node_partner_offset];
-      for (l = 0; l < num_layers; l++) { if (curr >= size) break;
-        if (!is_local(curr)) queue(curr);  curr += num_ranks_per_layer; } }
+    for (l = 0; l < num_layers; l++) {
+      partner_node = node_partner_offset + l * local_size;
+      if (partner_node >= node_size) break;
+      curr_partner = strided_ranks()[partner_node];
+      if (!is_local(curr_partner)) queue(curr_partner); }
+  (the partner is LOOKED UP in the layout by its node; before the repair of the cyclic-placement defect the loop
+  advanced by rank arithmetic, `curr_partner += local_size * local_size`, starting from
+  `strided_ranks()[node_partner_offset]` and stopping at `curr_partner >= size` — the same ranks for the block
+  placement modelled here (`Lemmas/Bcast.lean: remotePartners_eq_old`), different ones for other placements
+  (`YgmVerif.BcastP`, Props/C05P.lean));
 * stage 3 (`forward_local_and_dispatch_lambda`, run by every stage-2 receiver `q`):
   one message to every entry of `local_ranks()` different from `q`.
 
@@ -29,22 +34,31 @@ open YgmVerif.Router
 /-- `num_layers` -/
 def numLayers (N p : Nat) : Nat := N / p + (if N % p > 0 then 1 else 0)
 
-/-- `node_partner_offset` on rank `r`.  `Int.tmod` is C's `%` (truncation towards
-zero, sign of the dividend); the `if` is the code's fix-up of a negative remainder. -/
-def partnerOffset (p r : Nat) : Nat :=
-  let o : Int := Int.tmod ((loc p r : Int) - (node p r : Int)) (p : Int)
+/-- `node_partner_offset` of a rank with on-node index `lid` on node `nid`.  `Int.tmod` is C's `%` (truncation
+towards zero, sign of the dividend); the `if` is the code's fix-up of a negative remainder. -/
+def offsetOf (p lid nid : Nat) : Nat :=
+  let o : Int := Int.tmod ((lid : Int) - (nid : Int)) (p : Int)
   (if o < 0 then o + (p : Int) else o).toNat
 
-/-- the values `curr_partner` takes at the top of the loop body, for `l = 0 … num_layers-1` -/
-def layerCandidates (N p r : Nat) : List Nat :=
-  (List.range (numLayers N p)).map
-    (fun l => strided p r (partnerOffset p r) + l * (p * p))
+/-- `node_partner_offset` on rank `r` -/
+def partnerOffset (p r : Nat) : Nat := offsetOf p (loc p r) (node p r)
 
-/-- stage-2 destinations of rank `r`: `takeWhile` is the `break`, `filter` the `is_local` test -/
+/-- the values `partner_node` takes at the top of the loop body, for `l = 0 … num_layers-1` -/
+def layerCandidates (N p r : Nat) : List Nat :=
+  (List.range (numLayers N p)).map (fun l => partnerOffset p r + l * p)
+
+/-- stage-2 destinations of rank `r`: `takeWhile` is the `break`, `map` the lookup `strided_ranks()[partner_node]`,
+`filter` the `is_local` test -/
 def remotePartners (N p r : Nat) : List Nat :=
+  (((layerCandidates N p r).takeWhile (fun b => decide (b < N))).map (strided p r)).filter
+    (fun c => !isLocal p r c)
+
+/-- the loop as it was before the repair: start at `strided_ranks()[node_partner_offset]` (if that node exists),
+advance by `local_size * local_size`, stop at `curr_partner >= size` -/
+def remotePartnersOld (N p r : Nat) : List Nat :=
   if partnerOffset p r < N then
-    ((layerCandidates N p r).takeWhile (fun c => decide (c < N * p))).filter
-      (fun c => !isLocal p r c)
+    (((List.range (numLayers N p)).map (fun l => strided p r (partnerOffset p r) + l * (p * p))).takeWhile
+      (fun c => decide (c < N * p))).filter (fun c => !isLocal p r c)
   else []
 
 /-- stage-3 destinations of rank `q`: `for dest in local_ranks() if dest != rank()` -/
